@@ -16,7 +16,8 @@ for p in $props; do
       echo "SELFTEST-ERROR $p $(basename "$patch"): patch does not apply"; rc=1; rm -rf "$scratch"; continue
     fi
     expect=$(sed -n 's/^# expect: *//p' "$patch" | head -1)
-    out=$("$here/bin/govc" -repo "$scratch/repo" -specs "$here/specs" -evdir "$scratch/ev" check "$p" quick 2>&1)
+    nb=1; grep -q '^# bounded' "$patch" && nb=
+    out=$(VERIF_NO_BOUNDED=$nb "$here/bin/govc" -repo "$scratch/repo" -specs "$here/specs" -evdir "$scratch/ev" check "$p" quick 2>&1)
     code=$?
     if [ $code -eq 1 ] && echo "$out" | grep -q "failed obligation .*$expect"; then
       echo "selftest ok   $p $(basename "$patch"): fails $expect"
